@@ -37,7 +37,7 @@ func runCase(t *rapid.T, e node) {
 	d := cbh.New(t, src, FD, R, P, phase)
 	defer d.Close()
 
-	var recs []rec                               // completed since the last trip
+	var recs []rec                                  // completed since the last trip
 	lastEval := map[time.Duration]bool{never: true} // candidate instants of the previous evaluation
 	prev := "standby"
 	trips, standbys := int64(0), int64(0)
